@@ -57,6 +57,7 @@ pub fn replay(prop: &str, part: &str, case: &serde_json::Value) -> Option<CaseRe
         ("C02", _) => c02::eval(&sc()?),
         ("C03", _) => c03::eval(&sc()?),
         ("C14", _) => c14::replay(part, case)?,
+        ("C15", "level_after_drop") => c15::eval_after_drop(&sc()?),
         ("C15", _) => c15::eval(&sc()?),
         ("C16", _) => c16::replay(part, case)?,
         ("C17", _) => c17::eval(&sc()?),
@@ -68,7 +69,7 @@ pub fn replay(prop: &str, part: &str, case: &serde_json::Value) -> Option<CaseRe
         ("C08", _) => c08::eval(&sc()?),
         ("C09", "detection") => c09::eval_detect(&sc()?),
         ("C09", _) => c09::eval_false_alarm(&sc()?),
-        ("C10", "gossip_equal_amounts") => c10::eval_gossip(&sc()?),
+        ("C10", "gossip_equal_amounts") | ("C10", "isolated_observer") => c10::eval_gossip(&sc()?),
         ("C10", _) => c10::eval(&sc()?),
         ("C11", _) => c11::eval(&sc()?),
         ("C12", _) => c12::eval(&sc()?),
